@@ -333,7 +333,7 @@ pub fn run(ctx: Ctx) -> Report {
         let client = netkit::make_client(&server_addr, netkit::PASSWORD, engine::default_padding(), netkit::quiet_pool());
         let mut rng = Rng::new(seed ^ 0xC15);
         // (1) end to end
-        let n_assoc = if quick { 48 } else { 600 };
+        let n_assoc = if quick { 48 } else { 1500 };
         let mut set = tokio::task::JoinSet::new();
         let sem = Arc::new(tokio::sync::Semaphore::new(8));
         for i in 0..n_assoc {
@@ -406,7 +406,7 @@ pub fn run(ctx: Ctx) -> Report {
             }
         }
         // (2) session level
-        let n_frag = if quick { 160 } else { 3000 };
+        let n_frag = if quick { 160 } else { 12000 };
         for i in 0..n_frag {
             let n = rng.usize(1, 10);
             let sizes = gen_sizes(&mut rng, n);
